@@ -499,6 +499,17 @@ def run_C05(ctx):
         err = d['errcode']
         if any(x != err for x in d['adef']) or any(x != err for x in d['gdef']):
             ctx.nontrivial.add(name)
+        # the one condition C05_packed_agrees_offsets leaves to be evaluated on the arrays: no goto column lands on a negative slot
+        # (the other two - no 0 cell, column 0 holds the error code - are theorems about the model and are evaluated here as well)
+        off, nterm = d.get('off') or [], d['nterm']
+        conds = dict(offsets_reach_goto_columns=all(o + nterm + 1 >= 0 for o in off[:len(d['gtable'])]),
+                     no_zero_cell=all(c != 0 for row in d['gtable'] for c in row),
+                     column0_is_error=all(row[0] == err for row in d['gtable']))
+        for k, ok in conds.items():
+            if not ok:
+                ctx.violation('no-failing-input-found', 'grammar %s: the condition %s of the packed-lookup theorem does not hold on the arrays of the implementation' % (name, k),
+                              dict(grammar=name, grammar_text=be['texts'][name], grammar_sha=vlib.sha(be['texts'][name]), detail=k), interface='I5')
+        blanks += 1
         for (itf, what) in diffs:
             if itf == 'I5':
                 ctx.violation('counterexample', 'grammar %s: %s' % (name, what),
@@ -506,6 +517,7 @@ def run_C05(ctx):
     mat = matrix_roundtrip(ctx)
     variant_pairs(ctx, out, [('gp', 'gu'), ('op', 'ou')], 'C05 packed vs -u')
     ctx.extra['packed_grammars'] = sum(1 for (d, m, _, _) in be['res'].values() if m is not None and d.get('needpacked'))
+    ctx.extra['theorem_conditions_evaluated_on_tables'] = blanks
     ctx.extra['matrices'] = mat
     if not had_counterexample(ctx):
         bd = [x for x in backend_diffs(be) if x['interface'] in ('I5', 'I5n')]
@@ -995,7 +1007,7 @@ reg('C04', run_C04, ['Prop_C04.v'], BERULE + 'non-trivial = grammars with preced
     level_note=MODEL_NOTE)
 reg('C05', run_C05, ['Prop_C05.v'], BERULE + 'evaluations = cells looked up through the packed arrays + random matrices through PackTable/UnPackTable + packed vs -u parser runs; non-trivial = grammars with a non-error default, matrices with an empty leading column',
     technique='Coq theorem (first-fit row displacement with check vector is lossless for every matrix and row order) + every (state,symbol) lookup through the implementation\'s packed arrays vs its dense table + random matrices through PackTable/UnPackTable + packed vs -u parsers',
-    level_text="Proved in Coq for every matrix and every duplicate-free row order: lookup through the packed arrays returns the cell (C05_lookup_core, C05_lookup), unpacking the packed arrays gives back the matrix (C05_pack_roundtrip), and the packed and dense parsers of the model pipeline agree on every input (C05_packed_agrees). On every run every cell of every corpus grammar is looked up through the implementation's own packed arrays (template Action() logic) and compared with GTable, random matrices go through utils.PackTable/UnPackTable, and packed vs -u generated parsers are compared on all inputs.",
+    level_text="Proved in Coq for every matrix and every duplicate-free row order: lookup through the packed arrays returns the cell (C05_lookup_core, C05_lookup), unpacking the packed arrays gives back the matrix (C05_pack_roundtrip); for every table generate_tables emits no cell is 0 and the start-symbol column holds the error code (C05_conditions_hold), so its packed lookups equal its dense cells as soon as no goto column can land on a negative slot - one boolean condition on the offset vector (C05_packed_agrees_offsets, C05_packed_agrees) - and then the packed and dense parsers agree on every input (C08_variants). On every run every cell of every corpus grammar (incl. tables with more than 64 columns and more than 256 productions) is looked up through the implementation's own packed arrays (template Action() logic) and compared with GTable, the conditions of the theorem are evaluated on the implementation's arrays, random matrices go through utils.PackTable/UnPackTable, and packed vs -u generated parsers are compared on all inputs.",
     level_note=MODEL_NOTE)
 reg('C06', run_C06, ['Prop_C06.v'], I6RULE + 'evaluations = rejected runs; non-trivial = distinct (conflict-free grammar, non-sentence) whose error position is compared with an Earley viable-prefix computation',
     technique='Coq theorems (no Crash / nil return under the table certificate; a token is shifted only if input-so-far plus that token begins a sentence: soundness of LR(1) items over access paths + parse trees on the stack + productivity) + outcome classification and fetch count of every rejected run of the real parsers vs Earley viable-prefix computation and the model',
